@@ -116,7 +116,7 @@ func (s *Sch) Valid(r *hx.Rng) any {
 		out := map[string]any{}
 		for i, f := range s.Fields {
 			m := s.Members[i]
-			if o, _ := optFlags(m.Z); o && r.Chance(40) {
+			if o, _ := optFlags(m.Z); o && r.Chance(40) && !s.required(f) {
 				continue
 			}
 			v := m.Valid(r)
@@ -178,6 +178,22 @@ func (s *Sch) Valid(r *hx.Rng) any {
 		return s.Members[0].Valid(r)
 	}
 	panic("Valid " + s.Kind)
+}
+
+// required: the written .Required(...) call names field f.
+func (s *Sch) required(f string) bool {
+	if s.ReqCall == nil {
+		return false
+	}
+	if len(*s.ReqCall) == 0 {
+		return true
+	}
+	for _, k := range *s.ReqCall {
+		if k == f {
+			return true
+		}
+	}
+	return false
 }
 
 // Invalid returns a value the schema is meant to reject. sameT: keep the Go type `goT`
